@@ -51,6 +51,7 @@ FIXED = [
  ("C07","15a96e6","C07:fault-accepted:low-above-high:codespacerange","`1 begincodespacerange <FF> <00> endcodespacerange` was stored although `a reversed range … is rejected`; earlier the reference treated only the three range-mapping kinds as faults"),
  ("C09","9356f30","C09:creation-date","creation times in zones the header comment cannot express did not read back: a zone offset with seconds (time.FixedZone(\"\", 3632), local mean time) came back 32 s off, a zone name that is not an abbreviation (\"myzone\", \"X\", \"Europe/Berlin\") came back as the zero time, and a name with a line break broke the file (keys C09:creation-date, C09:read-error, C08:decode:unsupported:operator)"),
  ("C15","94f5319","C15:sizes:read-error","afm.Read failed with `bufio.Scanner: token too long` on the library's own output as soon as one line passed 64 KiB (a Notice of 70,000 bytes, a glyph with 9000 ligatures)"),
+ ("C20","fe145dd","C20:drift:far-from-origin","the writer added the sum of a curve's three deltas to its tracked position, the decoder adds them one after the other: up to one unit in the last place apart per curve.  `MoveTo(2147483647, 0)` followed by 10,000 curves with deltas of 1/3 decoded 0.0062 away from the requested outline (bound 1/214 = 0.0047); found by a round-7 seeding agent, C20 family drift-far-from-origin"),
  ("C16","c23956e","C16:glyphlist:multi-code-entry-maps-to-U+0000","the 81 glyph list entries denoting several characters mapped to U+0000 (ToUnicode(\"dalethatafpatah\") = [0000] instead of [05D3 05B2])"),
 ]
 OPEN = [
